@@ -91,6 +91,18 @@ fn oneway_new(p: &RawParameters, ctx: &dyn Context) -> Result<Op, Error> {
     Op::plain(p, InnerOp(oneway_fwd), None, &ONEWAY_GAMUT, ctx)
 }
 
+// t_oneway2 e=<1..4>: the same one-way operator, declared the way the one-way built-ins (curvature,
+// gravity, deflection) are: its own gamut does not list the `inv` flag.  `inv` is a modifier of the
+// step, "valid for all operators" like omit_fwd / omit_inv: an operator author does not have to list
+// it for `inv` on a one-way operator to be refused (rather than silently ignored)
+#[rustfmt::skip]
+const ONEWAY2_GAMUT: [OpParameter; 1] = [
+    OpParameter::Natural { key: "e", default: Some(1) },
+];
+fn oneway2_new(p: &RawParameters, ctx: &dyn Context) -> Result<Op, Error> {
+    Op::plain(p, InnerOp(oneway_fwd), None, &ONEWAY2_GAMUT, ctx)
+}
+
 // t_failodd: a tuple whose first element is an odd integer fails: it is
 // overwritten with NaN and not counted; all others pass unchanged and are
 // counted.  Same in both directions.
@@ -177,6 +189,7 @@ pub fn register_all(ctx: &mut dyn Context) {
     ctx.register_op("t_add", OpConstructor(add_new));
     ctx.register_op("t_dbl", OpConstructor(dbl_new));
     ctx.register_op("t_oneway", OpConstructor(oneway_new));
+    ctx.register_op("t_oneway2", OpConstructor(oneway2_new));
     ctx.register_op("t_failodd", OpConstructor(failodd_new));
     ctx.register_op("t_drift", OpConstructor(drift_new));
     ctx.register_op("t_gamut", OpConstructor(gamut_new));
